@@ -139,6 +139,12 @@ func c16Cases(thorough bool) []c16Case {
 	for _, v := range vVariants {
 		ownerSets = append(ownerSets, []c16Pool{v}, []c16Pool{adv, v}, []c16Pool{v, oth}, []c16Pool{oth, v, adv})
 	}
+	// the owner may already hold pools named like the pools the split creates
+	vc := c16Pool{Name: "VC round pool", Type: "Advisors", Locked: 900, Sent: 30, Withdrawn: 20}
+	pub := c16Pool{Name: "Public round pool", Type: "Validators", Locked: 2_100_000_000_000, Sent: 0, Withdrawn: 0}
+	for _, v := range vVariants {
+		ownerSets = append(ownerSets, []c16Pool{vc, v}, []c16Pool{v, pub, vc})
+	}
 	otherSets := [][]c16Pool{nil, {{Name: "p2", Type: "Validators", Locked: 300, Sent: 10, Withdrawn: 20}}}
 	accKinds := [][4]string{
 		{"absent", "absent", "absent", "absent"}, {"base", "base", "base", "base"}, {"cont", "cont", "cont", "cont"},
@@ -353,12 +359,15 @@ func c16Run(w *harness.World, cs c16Case, st *c16Stats, report func(sig, what st
 	// --- oracles ----------------------------------------------------------------------------------
 	newPools := app.CfevestingKeeper.GetAllAccountVestingPools(ctx)
 	sum := sdk.ZeroInt()
-	byKey := map[string]*vtypes.VestingPool{}
+	// pool names need not be unique per owner (the split appends pools whatever the owner already
+	// holds), so pools are looked up as a multiset per owner/name
+	byKey := map[string][]*vtypes.VestingPool{}
+	used := map[*vtypes.VestingPool]bool{}
 	for _, avp := range newPools {
 		for _, p := range avp.VestingPools {
 			cur := p.InitiallyLocked.Sub(p.Sent).Sub(p.Withdrawn)
 			sum = sum.Add(cur)
-			byKey[avp.Owner+"/"+p.Name] = p
+			byKey[avp.Owner+"/"+p.Name] = append(byKey[avp.Owner+"/"+p.Name], p)
 			if p.Sent.IsNegative() || p.Withdrawn.IsNegative() || cur.IsNegative() {
 				report("pool-insolvent", fmt.Sprintf("after the upgrade pool %s/%s has locked=%s sent=%s withdrawn=%s", avp.Owner, p.Name, p.InitiallyLocked, p.Sent, p.Withdrawn))
 			}
@@ -373,11 +382,49 @@ func c16Run(w *harness.World, cs c16Case, st *c16Stats, report func(sig, what st
 	if s := app.BankKeeper.GetSupply(ctx, harness.Denom).Amount; !s.Equal(supplyBefore) {
 		report("supply-changed", fmt.Sprintf("supply changed from %s to %s", supplyBefore, s))
 	}
+	// every pre-upgrade pool is matched with one post-upgrade pool of the same owner and name,
+	// preferring one with the same history
+	take := func(key string, o oldPool) (*vtypes.VestingPool, bool) {
+		var fallback *vtypes.VestingPool
+		for _, p := range byKey[key] {
+			if used[p] {
+				continue
+			}
+			if p.Sent.Equal(sdk.NewInt(o.Sent)) && p.Withdrawn.Equal(sdk.NewInt(o.Withdrawn)) {
+				used[p] = true
+				return p, true
+			}
+			if fallback == nil {
+				fallback = p
+			}
+		}
+		if fallback != nil {
+			used[fallback] = true
+			return fallback, true
+		}
+		return nil, false
+	}
+	matched := make([]*vtypes.VestingPool, len(olds))
+	for i, o := range olds {
+		p, ok := take(o.owner+"/"+o.Name, o)
+		if !ok && o.owner == c16Owner && o.Name == "Validators pool" {
+			p, ok = take(o.owner+"/Validator round pool", o)
+		}
+		if !ok {
+			report("pool-lost", fmt.Sprintf("pool %s/%s does not exist after the upgrade", o.owner, o.Name))
+			continue
+		}
+		matched[i] = p
+	}
+	// the pools the split creates are those of the four names that no pre-upgrade pool accounts for
 	newNames := []string{"VC round pool", "Early-bird round pool", "Public round pool", "Strategic reserve short term round pool"}
 	present := 0
 	for _, n := range newNames {
-		if _, ok := byKey[c16Owner+"/"+n]; ok {
-			present++
+		for _, p := range byKey[c16Owner+"/"+n] {
+			if !used[p] {
+				present++
+				break
+			}
 		}
 	}
 	if present != 0 && present != 4 {
@@ -388,14 +435,9 @@ func c16Run(w *harness.World, cs c16Case, st *c16Stats, report func(sig, what st
 	} else {
 		atomic.AddInt64(&st.splitSkipped, 1)
 	}
-	for _, o := range olds {
-		name := o.Name
-		p, ok := byKey[o.owner+"/"+name]
-		if !ok && o.owner == c16Owner && name == "Validators pool" {
-			p, ok = byKey[o.owner+"/Validator round pool"]
-		}
-		if !ok {
-			report("pool-lost", fmt.Sprintf("pool %s/%s does not exist after the upgrade", o.owner, o.Name))
+	for i, o := range olds {
+		p := matched[i]
+		if p == nil {
 			continue
 		}
 		if !p.Sent.Equal(sdk.NewInt(o.Sent)) || !p.Withdrawn.Equal(sdk.NewInt(o.Withdrawn)) {
